@@ -608,4 +608,7 @@ def buildOn (st : St) : St :=
                                     sigchldwatch := none, pfd := [], signums := [], watched := [], pendingSig := [],
                                     pipewatch := none, stillRunning := false } (-1) IO_IN 0 (-1)).1 SIGWINCH 0 (-2)).1 with log := [] }
 
+/-- A whole history. -/
+def runOps (cfg : Config) (ops : List Op) : St := ops.foldl applyOp (build cfg)
+
 end Tickit.EvLoop.Fb
